@@ -1,3 +1,944 @@
-use crate::common::Params;
-use vq_util::Summary;
-pub fn run(_p: &Params, _sum: &mut Summary) {}
+//! C09 (component part, clause d): `RttEstimator`, `Pto` and `loss::detect` against a direct
+//! transcription of RFC 9002 section 5 / 6.1.2 / 6.2.1 and appendix A.7.
+//!
+//! Tolerances (stated once, used below):
+//!  * `update_rtt` computes `w/8*7 + a/8` and `v/4*3 + x/4` on integer nanoseconds, dividing
+//!    first.  Against the exact rational (7w+a)/8 that loses at most 7 ns (srtt) and 3 ns
+//!    (rttvar) per step, always downwards.  LOCAL check (RFC rule applied to the estimator's own
+//!    previous values): |diff| <= 8 ns / 4 ns.  GLOBAL check (independent f64 model run over the
+//!    whole history): the error recurrence e' = 7/8 e + 7 is bounded by 56 ns for srtt and
+//!    e' = 3/4 e + 1/4*56 + 3 by 68 ns for rttvar: tolerances 64 ns / 96 ns.
+//!  * `pto_period` works on whole microseconds: truncating srtt, 4*trunc(rttvar) and
+//!    max_ack_delay loses < 1+4+1 us, times the backoff: impl in [exact - 6us*backoff, exact].
+//!  * `loss_time_threshold` is t + t/8 on integer ns: within 1 ns of 9/8*t.
+//!  * samples below 1 us are raised to 1 us (`MIN_RTT`, the documented resolution of the
+//!    estimator and of `Timestamp`); the oracle applies the same floor and counts such samples.
+//!  * `Timestamp::has_elapsed` treats deadlines less than kGranularity (1 ms) ahead as due, so
+//!    `loss::detect` / `Pto::on_timeout` may act up to 1 ms early; inside that band either
+//!    outcome is accepted and counted.
+//!
+//! Where RFC 9002 5.3 leaves a choice (ignoring ack delay for Initial packets, ignoring samples
+//! before handshake confirmation, exact equality latest_rtt == min_rtt + ack_delay, the order of
+//! the rttvar/srtt updates in 5.3 vs. appendix A.7 / erratum 7539, re-seeding after persistent
+//! congestion) every permitted outcome is accepted and the one taken is counted.
+
+use crate::common::{guarded, panic_sig, ts, Caught, Fail, Params};
+use core::{task::Poll, time::Duration};
+use s2n_quic_core::{
+    packet::number::PacketNumberSpace,
+    recovery::{loss, Pto, RttEstimator, K_GRANULARITY},
+    time::timer::Provider as _,
+    transport::parameters::MaxAckDelay,
+    varint::VarInt,
+};
+use vq_util::{json, mix, Rng, Summary, Violation};
+
+const MS: f64 = 1_000_000.0;
+const GRANULARITY_NS: f64 = MS;
+
+fn ns(d: Duration) -> f64 {
+    d.as_nanos() as f64
+}
+
+/// RFC 9002 transcription, nanoseconds in f64 (exact to ~1e-5 ns in the value range used)
+#[derive(Clone, Debug)]
+struct Model {
+    has_sample: bool,
+    latest: f64,
+    min: f64,
+    srtt: f64,
+    rttvar: f64,
+    max_ack_delay: f64,
+    /// range of the adjusted samples that entered smoothed_rtt since it was (re)seeded
+    lo: f64,
+    hi: f64,
+}
+
+#[derive(Clone, Copy, Debug, PartialEq)]
+enum Cand {
+    /// smoothed values unchanged (sample ignored before handshake confirmation)
+    Ignore,
+    /// EWMA update with this adjusted sample; `a7` = rttvar computed from the old srtt
+    /// (appendix A.7 / erratum 7539) rather than from the new one (5.3 as published)
+    Update { adjusted: f64, a7: bool },
+    /// first-sample rule
+    Seed,
+}
+
+fn ewma(srtt: f64, rttvar: f64, adjusted: f64, a7: bool) -> (f64, f64) {
+    let s2 = 0.875 * srtt + 0.125 * adjusted;
+    let sample = if a7 {
+        (srtt - adjusted).abs()
+    } else {
+        (s2 - adjusted).abs()
+    };
+    (s2, 0.75 * rttvar + 0.25 * sample)
+}
+
+#[derive(Default)]
+struct Stats {
+    samples: u64,
+    sub_us: u64,
+    seeded: u64,
+    ignored: u64,
+    ack_delay_subtracted: u64,
+    ack_delay_not_subtracted: u64,
+    ack_delay_clamped: u64,
+    equality_edge: u64,
+    initial_ack_delay_ignored: u64,
+    order_a7: u64,
+    order_53: u64,
+    order_indistinguishable: u64,
+    pc_reseed: u64,
+    pto_checks: u64,
+    pto_chains: u64,
+    pto_expiries: u64,
+    pto_early_band: u64,
+    loss_checks: u64,
+    loss_lost_pkt: u64,
+    loss_lost_time: u64,
+    loss_early_band: u64,
+    loss_not_yet: u64,
+    loss_not_declared: u64,
+    thr_checks: u64,
+    min_time_margin_ns: i64,
+    max_pto_shortfall_ns: i64,
+    max_pc_threshold_shortfall_ms: i64,
+    max_backoff: u32,
+    shape: u32,
+}
+
+mod shape {
+    pub const CONFIRMED: u32 = 1;
+    pub const PRE_CONFIRM_IGNORED: u32 = 2;
+    pub const CLAMPED: u32 = 4;
+    pub const NOT_SUBTRACTED: u32 = 8;
+    pub const EQUALITY: u32 = 16;
+    pub const PC: u32 = 32;
+    pub const SUB_US: u32 = 64;
+    pub const HUGE: u32 = 128;
+    pub const PTO_CHAIN: u32 = 256;
+    pub const LOSS_TIME: u32 = 512;
+    pub const LOSS_PKT: u32 = 1024;
+    pub const INITIAL_SPACE: u32 = 2048;
+    pub const MAD_ZERO: u32 = 4096;
+}
+
+struct Hist {
+    est: RttEstimator,
+    m: Model,
+    rng: Rng,
+    confirmed: bool,
+    now_us: u64,
+    after_pc: bool,
+    st: Stats,
+    verbose: bool,
+    trace: Vec<String>,
+    fail: Option<Fail>,
+    ops: u64,
+}
+
+impl Hist {
+    fn new(mut rng: Rng, verbose: bool) -> Self {
+        let initial = match rng.below(4) {
+            0 => Duration::from_millis(333),
+            1 => Duration::from_micros(rng.range(1, 1000)),
+            2 => Duration::from_millis(rng.range(1, 2000)),
+            _ => Duration::from_nanos(rng.range(1_000, 3_000_000_000)),
+        };
+        let mut est = RttEstimator::new(initial);
+        let mad_ms = match rng.below(6) {
+            0 => 0,
+            1 => 25,
+            2 => 16383,
+            _ => rng.range(1, 400),
+        };
+        let mad = MaxAckDelay::new(VarInt::new(mad_ms).unwrap()).expect("valid max_ack_delay");
+        est.on_max_ack_delay(mad);
+        let m = Model {
+            has_sample: false,
+            latest: ns(initial),
+            min: ns(initial),
+            srtt: ns(initial),
+            rttvar: ns(initial) / 2.0,
+            max_ack_delay: mad_ms as f64 * MS,
+            lo: ns(initial),
+            hi: ns(initial),
+        };
+        let mut st = Stats {
+            min_time_margin_ns: i64::MAX,
+            ..Default::default()
+        };
+        if mad_ms == 0 {
+            st.shape |= shape::MAD_ZERO;
+        }
+        let mut h = Hist {
+            est,
+            m,
+            rng,
+            confirmed: false,
+            now_us: 1_000_000,
+            after_pc: false,
+            st,
+            verbose,
+            trace: Vec::new(),
+            fail: None,
+            ops: 0,
+        };
+        // RFC 9002 5.3: smoothed_rtt = kInitialRtt, rttvar = kInitialRtt / 2
+        if h.est.smoothed_rtt() != initial || h.est.rttvar() != initial / 2 {
+            h.set_fail(
+                "initial_values",
+                format!(
+                    "initial rtt {initial:?}: smoothed {:?} rttvar {:?}",
+                    h.est.smoothed_rtt(),
+                    h.est.rttvar()
+                ),
+            );
+        }
+        if h.est.max_ack_delay() != Duration::from_millis(mad_ms) {
+            h.set_fail(
+                "max_ack_delay",
+                format!("max_ack_delay {:?} != {mad_ms} ms", h.est.max_ack_delay()),
+            );
+        }
+        h.check_derived();
+        h
+    }
+
+    fn log(&mut self, s: String) {
+        if self.verbose {
+            eprintln!("[{:>5}] {}", self.ops, s);
+        }
+        if self.trace.len() >= 16 {
+            self.trace.remove(0);
+        }
+        self.trace.push(s);
+    }
+
+    fn set_fail(&mut self, sig: &str, what: String) {
+        if self.fail.is_none() {
+            if self.verbose {
+                eprintln!("VIOLATION rtt.{sig}: {what}");
+            }
+            self.fail = Some(Fail::new(format!("rtt.{sig}"), what));
+        }
+    }
+
+    fn gen_duration(&mut self, around: f64) -> Duration {
+        let n = match self.rng.below(12) {
+            0 => 0,
+            1 => self.rng.range(1, 999),                 // below the 1 us resolution
+            2 => 1_000,                                  // exactly MIN_RTT
+            3 => self.rng.range(1_000, 100_000),         // LAN
+            4..=7 => {
+                // near the current estimate
+                let a = around.max(1000.0) as u64;
+                self.rng.range(a / 2, a + a / 2 + 1)
+            }
+            8..=9 => self.rng.range(100_000, 400_000_000), // WAN
+            10 => self.rng.range(400_000_000, 60_000_000_000), // pathological
+            _ => (self.rng.range(1, 2000)) * 1_000_000,  // whole milliseconds
+        };
+        if n >= 10_000_000_000 {
+            self.st.shape |= shape::HUGE;
+        }
+        Duration::from_nanos(n)
+    }
+
+    fn op_sample(&mut self) {
+        if !self.confirmed && self.rng.chance(1, 12) {
+            self.confirmed = true;
+            self.st.shape |= shape::CONFIRMED;
+        }
+        let space = if self.confirmed {
+            if self.rng.chance(1, 30) {
+                PacketNumberSpace::Handshake
+            } else {
+                PacketNumberSpace::ApplicationData
+            }
+        } else {
+            match self.rng.below(3) {
+                0 => PacketNumberSpace::Initial,
+                1 => PacketNumberSpace::Handshake,
+                _ => PacketNumberSpace::ApplicationData,
+            }
+        };
+        let prev_srtt = self.est.smoothed_rtt();
+        let prev_var = self.est.rttvar();
+        let prev_min = self.est.min_rtt();
+        let mut sample = self.gen_duration(ns(prev_srtt));
+        let mut ack_delay = match self.rng.below(8) {
+            0 => Duration::ZERO,
+            1 => self.est.max_ack_delay(),
+            2 => self.est.max_ack_delay() + Duration::from_nanos(self.rng.range(1, 50_000_000)),
+            3 => self.gen_duration(ns(prev_srtt)),
+            4 => Duration::from_nanos(self.rng.range(0, 30_000_000)),
+            _ => Duration::from_micros(self.rng.range(0, 25_000)),
+        };
+        // boundary: latest_rtt == min_rtt + ack_delay exactly
+        if self.rng.chance(1, 16) && self.m.has_sample {
+            let eff = if self.confirmed {
+                ack_delay.min(self.est.max_ack_delay())
+            } else {
+                ack_delay
+            };
+            sample = prev_min + eff;
+            if self.rng.chance(1, 3) {
+                sample += Duration::from_nanos(1);
+            } else if self.rng.chance(1, 2) && sample > Duration::from_nanos(1001) {
+                sample -= Duration::from_nanos(1);
+            }
+            if !self.confirmed {
+                ack_delay = eff;
+            }
+        }
+        self.now_us += self.rng.range(1, 50_000);
+        let now = ts(self.now_us);
+        self.est
+            .update_rtt(ack_delay, sample, now, self.confirmed, space);
+        self.st.samples += 1;
+
+        // ---- oracle -------------------------------------------------------------------
+        let mut latest = ns(sample);
+        if latest < 1000.0 {
+            latest = 1000.0; // documented MIN_RTT floor
+            self.st.sub_us += 1;
+            self.st.shape |= shape::SUB_US;
+        }
+        let i_latest = ns(self.est.latest_rtt());
+        let i_min = ns(self.est.min_rtt());
+        let i_srtt = ns(self.est.smoothed_rtt());
+        let i_var = ns(self.est.rttvar());
+        let desc = format!(
+            "sample={sample:?} ack_delay={ack_delay:?} confirmed={} space={space:?} prev(srtt={prev_srtt:?} var={prev_var:?} min={prev_min:?}) -> srtt={:?} var={:?} min={:?} latest={:?}",
+            self.confirmed,
+            self.est.smoothed_rtt(),
+            self.est.rttvar(),
+            self.est.min_rtt(),
+            self.est.latest_rtt()
+        );
+        self.log(desc.clone());
+
+        if i_latest != latest {
+            self.set_fail("latest_rtt", format!("latest_rtt != sample: {desc}"));
+            return;
+        }
+        let seeding = !self.m.has_sample || self.after_pc;
+
+        // min_rtt: RFC 9002 5.2
+        let want_min = if seeding { latest } else { self.m.min.min(latest) };
+        // after persistent congestion re-seeding min_rtt is a SHOULD: keeping the old minimum
+        // (if lower) is also conformant
+        let alt_min = if self.after_pc {
+            self.m.min.min(latest)
+        } else {
+            want_min
+        };
+        if i_min != want_min && i_min != alt_min {
+            self.set_fail(
+                "min_rtt",
+                format!("min_rtt {i_min} ns, expected {want_min} ns: {desc}"),
+            );
+            return;
+        }
+        if i_min > latest {
+            self.set_fail("min_rtt_above_sample", format!("min_rtt > latest sample: {desc}"));
+            return;
+        }
+        self.m.min = i_min;
+        self.m.latest = latest;
+
+        // candidates permitted by RFC 9002 5.3 / A.7
+        let mut cands: Vec<(Cand, u32)> = Vec::new(); // (candidate, note bits)
+        const N_CLAMP: u32 = 1;
+        const N_EQ: u32 = 2;
+        const N_INIT0: u32 = 4;
+        const N_NOSUB: u32 = 8;
+        const N_SUB: u32 = 16;
+        if seeding {
+            cands.push((Cand::Seed, 0));
+        }
+        if self.m.has_sample {
+            let mut delays: Vec<(f64, u32)> = vec![(ns(ack_delay), 0)];
+            if space.is_initial() && ack_delay > Duration::ZERO {
+                delays.push((0.0, N_INIT0)); // MAY ignore ack delay for Initial packets
+            }
+            for (d, note) in delays {
+                let mut eff: Vec<(f64, u32)> = Vec::new();
+                let clamped = d.min(self.m.max_ack_delay);
+                if self.confirmed {
+                    eff.push((clamped, if clamped < d { N_CLAMP } else { 0 })); // MUST
+                } else {
+                    eff.push((d, 0)); // SHOULD ignore max_ack_delay
+                    if clamped < d {
+                        eff.push((clamped, N_CLAMP));
+                    }
+                }
+                for (e, n2) in eff {
+                    let note = note | n2;
+                    let floor = i_min + e;
+                    if latest > floor {
+                        for a7 in [true, false] {
+                            cands.push((Cand::Update { adjusted: latest - e, a7 }, note | N_SUB));
+                        }
+                    } else if latest == floor {
+                        for a7 in [true, false] {
+                            cands.push((
+                                Cand::Update { adjusted: latest - e, a7 },
+                                note | N_EQ | N_SUB,
+                            ));
+                            cands.push((
+                                Cand::Update { adjusted: latest, a7 },
+                                note | N_EQ | N_NOSUB,
+                            ));
+                        }
+                        if !self.confirmed {
+                            cands.push((Cand::Ignore, note | N_EQ));
+                        }
+                    } else {
+                        // MUST NOT subtract
+                        for a7 in [true, false] {
+                            cands.push((Cand::Update { adjusted: latest, a7 }, note | N_NOSUB));
+                        }
+                        if !self.confirmed {
+                            cands.push((Cand::Ignore, note)); // MAY ignore the sample
+                        }
+                    }
+                }
+            }
+        }
+
+        // LOCAL: which permitted rule, applied to the estimator's own previous values, explains
+        // the new values?
+        let (ps, pv) = (ns(prev_srtt), ns(prev_var));
+        let mut hit: Option<(Cand, u32)> = None;
+        let mut best = f64::MAX;
+        let mut a7_hit = false;
+        let mut o53_hit = false;
+        // adjusted samples of every rule that explains the step (several can, at tiny scales)
+        let (mut m_lo, mut m_hi) = (f64::MAX, f64::MIN);
+        for (c, note) in &cands {
+            let (es, ev) = match c {
+                Cand::Seed => (latest, (latest / 2.0).floor()),
+                Cand::Ignore => (ps, pv),
+                Cand::Update { adjusted, a7 } => ewma(ps, pv, *adjusted, *a7),
+            };
+            if (i_srtt - es).abs() <= 8.0 && (i_var - ev).abs() <= 4.0 {
+                if let Cand::Update { a7, adjusted } = c {
+                    if *a7 {
+                        a7_hit = true;
+                    } else {
+                        o53_hit = true;
+                    }
+                    m_lo = m_lo.min(*adjusted);
+                    m_hi = m_hi.max(*adjusted);
+                }
+                let d = (i_srtt - es).abs() + (i_var - ev).abs();
+                if d < best {
+                    best = d;
+                    hit = Some((*c, *note));
+                }
+            }
+        }
+        let Some((cand, note)) = hit else {
+            self.set_fail(
+                "update_not_rfc9002",
+                format!("no update rule permitted by RFC 9002 5.3/A.7 explains the new values within 8/4 ns: {desc}"),
+            );
+            return;
+        };
+        match cand {
+            Cand::Seed => {
+                self.st.seeded += 1;
+                if self.after_pc {
+                    self.st.pc_reseed += 1;
+                }
+                self.m.srtt = latest;
+                self.m.rttvar = latest / 2.0;
+                self.m.lo = latest;
+                self.m.hi = latest;
+            }
+            Cand::Ignore => {
+                self.st.ignored += 1;
+                self.st.shape |= shape::PRE_CONFIRM_IGNORED;
+            }
+            Cand::Update { adjusted, a7 } => {
+                match (a7_hit, o53_hit) {
+                    (true, true) => self.st.order_indistinguishable += 1,
+                    (true, false) => self.st.order_a7 += 1,
+                    _ => self.st.order_53 += 1,
+                }
+                // GLOBAL model follows the same permitted choice from its own state
+                let (s, v) = ewma(self.m.srtt, self.m.rttvar, adjusted, a7);
+                self.m.srtt = s;
+                self.m.rttvar = v;
+                self.m.lo = self.m.lo.min(adjusted).min(m_lo);
+                self.m.hi = self.m.hi.max(adjusted).max(m_hi);
+            }
+        }
+        if note & N_CLAMP != 0 {
+            self.st.ack_delay_clamped += 1;
+            self.st.shape |= shape::CLAMPED;
+        }
+        if note & N_EQ != 0 {
+            self.st.equality_edge += 1;
+            self.st.shape |= shape::EQUALITY;
+        }
+        if note & N_INIT0 != 0 {
+            self.st.initial_ack_delay_ignored += 1;
+            self.st.shape |= shape::INITIAL_SPACE;
+        }
+        if note & N_NOSUB != 0 && matches!(cand, Cand::Update { .. }) {
+            self.st.ack_delay_not_subtracted += 1;
+            self.st.shape |= shape::NOT_SUBTRACTED;
+        }
+        if note & N_SUB != 0 && matches!(cand, Cand::Update { .. }) {
+            self.st.ack_delay_subtracted += 1;
+        }
+        self.m.has_sample = true;
+        self.after_pc = false;
+
+        // GLOBAL drift
+        if (i_srtt - self.m.srtt).abs() > 64.0 || (i_var - self.m.rttvar).abs() > 96.0 {
+            self.set_fail(
+                "drift_from_transcription",
+                format!(
+                    "estimator (srtt {i_srtt} var {i_var}) drifted from the RFC transcription (srtt {:.1} var {:.1}): {desc}",
+                    self.m.srtt, self.m.rttvar
+                ),
+            );
+            return;
+        }
+        // smoothed_rtt within the range of the (adjusted) samples
+        if i_srtt < self.m.lo - 64.0 || i_srtt > self.m.hi + 1.0 {
+            self.set_fail(
+                "smoothed_outside_sample_range",
+                format!(
+                    "smoothed_rtt {i_srtt} ns outside [{}, {}] of adjusted samples: {desc}",
+                    self.m.lo, self.m.hi
+                ),
+            );
+            return;
+        }
+        self.check_derived();
+    }
+
+    /// PTO period, loss time threshold, persistent congestion threshold from the current values
+    fn check_derived(&mut self) {
+        let srtt = ns(self.est.smoothed_rtt());
+        let var = ns(self.est.rttvar());
+        let latest = ns(self.est.latest_rtt());
+        let mad = ns(self.est.max_ack_delay());
+
+        // RFC 9002 6.1.2: max(kTimeThreshold * max(smoothed_rtt, latest_rtt), kGranularity)
+        let thr = (1.125 * srtt.max(latest)).max(GRANULARITY_NS);
+        let i_thr = ns(self.est.loss_time_threshold());
+        self.st.thr_checks += 1;
+        if (i_thr - thr).abs() > 1.0 || i_thr < GRANULARITY_NS {
+            self.set_fail(
+                "loss_time_threshold",
+                format!(
+                    "loss_time_threshold {i_thr} ns, RFC 9002 6.1.2 gives {thr} ns (srtt {srtt} latest {latest})"
+                ),
+            );
+            return;
+        }
+
+        // RFC 9002 6.2.1: PTO = smoothed_rtt + max(4*rttvar, kGranularity) + max_ack_delay
+        for space in [
+            PacketNumberSpace::Initial,
+            PacketNumberSpace::Handshake,
+            PacketNumberSpace::ApplicationData,
+        ] {
+            let k = self.rng.below(11) as u32;
+            let backoff = 1u32 << k;
+            self.st.max_backoff = self.st.max_backoff.max(backoff);
+            let base = srtt
+                + (4.0 * var).max(GRANULARITY_NS)
+                + if space.is_application_data() { mad } else { 0.0 };
+            let exact = (base * backoff as f64).max(GRANULARITY_NS);
+            let got = ns(self.est.pto_period(backoff, space));
+            self.st.pto_checks += 1;
+            let shortfall = exact - got;
+            self.st.max_pto_shortfall_ns = self.st.max_pto_shortfall_ns.max(shortfall as i64);
+            if got < GRANULARITY_NS || shortfall < -1.0 || shortfall > 6_000.0 * backoff as f64 {
+                self.set_fail(
+                    "pto_period",
+                    format!(
+                        "pto_period(backoff {backoff}, {space:?}) = {got} ns, RFC 9002 6.2.1 gives {exact} ns (srtt {srtt} rttvar {var} max_ack_delay {mad})"
+                    ),
+                );
+                return;
+            }
+            // doubling: exact in the estimator's microsecond arithmetic
+            if backoff < (1 << 20) {
+                let twice = ns(self.est.pto_period(backoff * 2, space));
+                if twice != 2.0 * got {
+                    self.set_fail(
+                        "pto_not_doubling",
+                        format!(
+                            "pto_period(backoff {}) = {twice} ns is not twice pto_period(backoff {backoff}) = {got} ns",
+                            backoff * 2
+                        ),
+                    );
+                    return;
+                }
+            }
+        }
+
+        // RFC 9002 7.6.1 (not part of the C09 statement: observed only)
+        let pc_exact = (srtt + (4.0 * var).max(GRANULARITY_NS) + mad) * 3.0;
+        let pc_got = ns(self.est.persistent_congestion_threshold());
+        let short_ms = ((pc_exact - pc_got) / MS).ceil() as i64;
+        self.st.max_pc_threshold_shortfall_ms = self.st.max_pc_threshold_shortfall_ms.max(short_ms);
+    }
+
+    fn op_persistent_congestion(&mut self) {
+        self.est.on_persistent_congestion();
+        self.after_pc = true;
+        self.st.shape |= shape::PC;
+        self.log("on_persistent_congestion".into());
+        // nothing observable may change until the next sample
+        let (s, v, m) = (
+            ns(self.est.smoothed_rtt()),
+            ns(self.est.rttvar()),
+            ns(self.est.min_rtt()),
+        );
+        if (s - self.m.srtt).abs() > 64.0 || (v - self.m.rttvar).abs() > 96.0 || m != self.m.min {
+            self.set_fail(
+                "persistent_congestion_changed_estimates",
+                format!("on_persistent_congestion changed srtt/rttvar/min_rtt immediately: {s} {v} {m}"),
+            );
+        }
+        if self.est.first_rtt_sample().is_some() {
+            // the marker is how recovery::Manager learns that no sample exists since the event
+            self.set_fail(
+                "persistent_congestion_marker",
+                "first_rtt_sample still set after on_persistent_congestion".into(),
+            );
+        }
+    }
+
+    fn op_loss_detect(&mut self) {
+        let thr = self.est.loss_time_threshold();
+        let thr_us = thr.as_micros() as u64;
+        let sent_us = self.now_us;
+        // elapsed time: around the threshold, far below, far above, inside the 1 ms band
+        let elapsed_us = match self.rng.below(8) {
+            0 => 0,
+            1 => self.rng.range(0, thr_us / 2),
+            2 => thr_us.saturating_sub(self.rng.range(0, 1000)),
+            3 => thr_us + self.rng.range(0, 1000),
+            4 => thr_us.saturating_sub(self.rng.range(1000, 3000)),
+            5 => thr_us,
+            6 => thr_us.saturating_sub(1001),
+            _ => self.rng.range(0, 2 * thr_us + 10),
+        };
+        let now_us = sent_us + elapsed_us;
+        let pn_v = self.rng.range(0, 1 << 20);
+        let gap = match self.rng.below(6) {
+            0 => 1,
+            1 => 2,
+            2 => 3,
+            3 => 4,
+            _ => self.rng.range(1, 50),
+        };
+        let space = PacketNumberSpace::ApplicationData;
+        let pn = space.new_packet_number(VarInt::new(pn_v).unwrap());
+        let largest = space.new_packet_number(VarInt::new(pn_v + gap).unwrap());
+        let out = loss::detect(
+            thr,
+            ts(sent_us),
+            loss::K_PACKET_THRESHOLD,
+            pn,
+            largest,
+            ts(now_us),
+        );
+        self.st.loss_checks += 1;
+        // RFC 9002 6.1: lost iff gap >= kPacketThreshold(3) or sent at least the time threshold ago
+        let srtt = ns(self.est.smoothed_rtt());
+        let latest = ns(self.est.latest_rtt());
+        let thr_exact_ns = (1.125 * srtt.max(latest)).max(GRANULARITY_NS);
+        let elapsed_ns = elapsed_us as f64 * 1000.0;
+        let margin = elapsed_ns - thr_exact_ns; // >= 0: time threshold met
+        self.log(format!(
+            "loss::detect gap={gap} elapsed={elapsed_us}us thr={thr:?} -> {out:?}"
+        ));
+        match out {
+            loss::Outcome::Lost => {
+                if gap >= 3 {
+                    self.st.loss_lost_pkt += 1;
+                    self.st.shape |= shape::LOSS_PKT;
+                } else if margin >= -1000.0 {
+                    // (1 us slack: Timestamp resolution)
+                    self.st.loss_lost_time += 1;
+                    self.st.shape |= shape::LOSS_TIME;
+                    self.st.min_time_margin_ns = self.st.min_time_margin_ns.min(margin as i64);
+                } else if margin > -(GRANULARITY_NS + 1000.0) {
+                    // timer granularity band: declared up to 1 ms early by design
+                    self.st.loss_early_band += 1;
+                    self.st.min_time_margin_ns = self.st.min_time_margin_ns.min(margin as i64);
+                } else {
+                    self.set_fail(
+                        "unsound_loss_declaration",
+                        format!(
+                            "loss::detect declared a packet lost with packet gap {gap} < 3 and only {elapsed_us} us elapsed; time threshold max(9/8*max(srtt,latest),1ms) = {thr_exact_ns} ns"
+                        ),
+                    );
+                }
+            }
+            loss::Outcome::NotLostYet { lost_time } => {
+                self.st.loss_not_yet += 1;
+                if gap >= 3 || margin >= 1000.0 {
+                    // not a soundness issue (the property only forbids early declarations)
+                    self.st.loss_not_declared += 1;
+                }
+                let want = ts(sent_us) + thr;
+                if lost_time != want {
+                    self.set_fail(
+                        "lost_time",
+                        format!("NotLostYet.lost_time {lost_time} != time_sent + threshold {want}"),
+                    );
+                }
+            }
+        }
+    }
+
+    /// consecutive PTO expiries: the period must double each time; `Pto` must not fire early
+    fn op_pto_chain(&mut self) {
+        let space = match self.rng.below(3) {
+            0 => PacketNumberSpace::Initial,
+            1 => PacketNumberSpace::Handshake,
+            _ => PacketNumberSpace::ApplicationData,
+        };
+        let mut pto = Pto::default();
+        let mut backoff: u32 = 1; // path::INITIAL_PTO_BACKOFF
+        let expiries = self.rng.range(1, 8);
+        let mut prev_period: Option<Duration> = None;
+        self.st.pto_chains += 1;
+        self.st.shape |= shape::PTO_CHAIN;
+        for _ in 0..expiries {
+            let period = self.est.pto_period(backoff, space);
+            if let Some(p) = prev_period {
+                if period != p * 2 {
+                    self.set_fail(
+                        "pto_not_doubling",
+                        format!("consecutive PTO expiry: period {period:?} after {p:?} is not double"),
+                    );
+                    return;
+                }
+            }
+            if period < K_GRANULARITY {
+                self.set_fail("pto_below_granularity", format!("pto period {period:?} < 1 ms"));
+                return;
+            }
+            prev_period = Some(period);
+            let base_us = self.now_us;
+            pto.update(ts(base_us), period);
+            let deadline_us = base_us + period.as_micros() as u64;
+            if pto.next_expiration() != Some(ts(deadline_us)) {
+                self.set_fail(
+                    "pto_timer_deadline",
+                    format!(
+                        "Pto armed for {:?}, expected base + period = {}",
+                        pto.next_expiration(),
+                        ts(deadline_us)
+                    ),
+                );
+                return;
+            }
+            // poll before the deadline: must stay pending (outside the 1 ms granularity band)
+            if period.as_micros() as u64 > 1001 && self.rng.chance(2, 3) {
+                let early_us = if self.rng.chance(1, 2) {
+                    deadline_us - 1001
+                } else {
+                    self.rng.range(base_us, deadline_us - 1001)
+                };
+                if pto.on_timeout(true, ts(early_us)) != Poll::Pending {
+                    self.set_fail(
+                        "pto_fired_early",
+                        format!(
+                            "Pto::on_timeout fired {} us before the PTO deadline (period {period:?})",
+                            deadline_us - early_us
+                        ),
+                    );
+                    return;
+                }
+            }
+            let in_flight = self.rng.chance(2, 3);
+            // inside the band either result is fine; at the deadline it must fire
+            if self.rng.chance(1, 4) {
+                let t = deadline_us - self.rng.range(1, 999).min(period.as_micros() as u64);
+                if pto.on_timeout(in_flight, ts(t)).is_ready() {
+                    self.st.pto_early_band += 1;
+                }
+            }
+            let fire_us = deadline_us + if self.rng.chance(1, 2) { 0 } else { self.rng.range(0, 5000) };
+            let armed = pto.next_expiration().is_some();
+            let r = pto.on_timeout(in_flight, ts(fire_us));
+            if armed && !r.is_ready() {
+                self.set_fail(
+                    "pto_did_not_fire",
+                    format!("Pto::on_timeout pending at/after its deadline (period {period:?})"),
+                );
+                return;
+            }
+            self.st.pto_expiries += 1;
+            // RFC 9002 6.2.4: one or two probes
+            let want = if in_flight { 2 } else { 1 };
+            let tx = pto.transmissions();
+            if tx == 0 || tx > 2 || (armed && tx != want) {
+                self.set_fail(
+                    "pto_probe_count",
+                    format!("{tx} probe transmissions requested after PTO expiry (packets_in_flight={in_flight})"),
+                );
+                return;
+            }
+            for _ in 0..tx {
+                pto.on_transmit_once();
+            }
+            if pto.transmissions() != 0 {
+                self.set_fail("pto_probe_count", "probe count did not return to 0".into());
+                return;
+            }
+            self.now_us = fire_us;
+            // RFC 9002 6.2.1: "the PTO period ... is doubled" on each expiry (path::Path does this
+            // in s2n-quic-transport; the harness plays that role)
+            backoff *= 2;
+            self.st.max_backoff = self.st.max_backoff.max(backoff);
+        }
+        self.log(format!("pto chain space={space:?} expiries={expiries}"));
+    }
+
+    fn step(&mut self) {
+        self.ops += 1;
+        match self.rng.below(100) {
+            0..=69 => self.op_sample(),
+            70..=84 => self.op_loss_detect(),
+            85..=94 => self.op_pto_chain(),
+            95..=97 => self.op_persistent_congestion(),
+            _ => {
+                self.now_us += self.rng.range(1, 5_000_000);
+            }
+        }
+    }
+}
+
+struct Outcome {
+    fail: Option<Fail>,
+    st: Stats,
+    trace: Vec<String>,
+    ops: u64,
+}
+
+fn drive(rng: Rng, len: u64, verbose: bool) -> Outcome {
+    let mut h = Hist::new(rng, verbose);
+    while h.ops < len && h.fail.is_none() {
+        h.step();
+    }
+    Outcome {
+        fail: h.fail,
+        st: h.st,
+        trace: h.trace,
+        ops: h.ops,
+    }
+}
+
+pub fn run(p: &Params, sum: &mut Summary) {
+    let range: Box<dyn Iterator<Item = u64>> = match p.only {
+        Some(i) => Box::new(i..=i),
+        None => Box::new(0..p.iters),
+    };
+    let mut total_ops = 0u64;
+    for index in range {
+        let mut rng = Rng::new(mix(p.seed ^ 0xC09C_09C0, index));
+        let len = if p.miri {
+            rng.range(8, 30)
+        } else {
+            rng.range(100, 1200)
+        };
+        if p.verbose {
+            eprintln!("history {index}: ops={len}");
+        }
+        let verbose = p.verbose;
+        let res = guarded(move || drive(rng, len, verbose));
+        sum.evaluations += 1;
+        let replay = json!({"check": "rtt", "seed": p.seed, "history": index, "mode": p.mode(), "ops": len});
+        match res {
+            Err(Caught::Library { loc, msg }) => sum.violation(Violation {
+                property: "C09".into(),
+                signature: format!("rtt.{}", panic_sig(&loc, &msg)),
+                what: format!("library panic at {loc}: {msg}"),
+                replay,
+            }),
+            Err(Caught::Harness { loc, msg }) => sum
+                .inconclusive
+                .push(format!("rtt history {index}: harness panic at {loc}: {msg}")),
+            Ok(o) => {
+                total_ops += o.ops;
+                let s = &o.st;
+                for (k, v) in [
+                    ("rtt_samples", s.samples),
+                    ("samples_below_1us_floored", s.sub_us),
+                    ("first_sample_seedings", s.seeded),
+                    ("reseeded_after_persistent_congestion", s.pc_reseed),
+                    ("samples_ignored_before_confirmation", s.ignored),
+                    ("ack_delay_subtracted", s.ack_delay_subtracted),
+                    ("ack_delay_not_subtracted(min_rtt_floor)", s.ack_delay_not_subtracted),
+                    ("ack_delay_clamped_to_max_ack_delay", s.ack_delay_clamped),
+                    ("equality_edge(latest==min_rtt+ack_delay)", s.equality_edge),
+                    ("initial_space_ack_delay_ignored", s.initial_ack_delay_ignored),
+                    ("rttvar_order.appendix_A7", s.order_a7),
+                    ("rttvar_order.section_5_3_as_published", s.order_53),
+                    ("rttvar_order.indistinguishable", s.order_indistinguishable),
+                    ("pto_period_checks", s.pto_checks),
+                    ("pto_chains", s.pto_chains),
+                    ("pto_expiries", s.pto_expiries),
+                    ("pto_fired_inside_1ms_band", s.pto_early_band),
+                    ("loss_detect_checks", s.loss_checks),
+                    ("loss.lost_by_packet_threshold", s.loss_lost_pkt),
+                    ("loss.lost_by_time_threshold", s.loss_lost_time),
+                    ("loss.lost_inside_1ms_granularity_band", s.loss_early_band),
+                    ("loss.not_lost_yet", s.loss_not_yet),
+                    ("loss.not_declared_although_threshold_met", s.loss_not_declared),
+                    ("loss_time_threshold_checks", s.thr_checks),
+                ] {
+                    sum.count(k, v);
+                }
+                if s.min_time_margin_ns != i64::MAX {
+                    sum.min("loss.min_time_margin_ns", s.min_time_margin_ns);
+                }
+                sum.max("pto.max_shortfall_vs_exact_ns", s.max_pto_shortfall_ns);
+                sum.max("pto.max_backoff", s.max_backoff as i64);
+                sum.max(
+                    "persistent_congestion_threshold.max_shortfall_ms(observed_only)",
+                    s.max_pc_threshold_shortfall_ms,
+                );
+                let nontrivial = s.samples >= 2 && (s.loss_checks > 0 || s.pto_chains > 0);
+                if nontrivial {
+                    sum.signatures.insert(mix(0xC09, s.shape as u64));
+                } else {
+                    sum.trivial += 1;
+                }
+                if sum.samples.len() < 4 {
+                    sum.sample(json!({"history": index, "ops": o.ops, "shape_bits": format!("{:#x}", s.shape), "last_ops": o.trace}));
+                }
+                if let Some(f) = o.fail {
+                    let mut replay = replay;
+                    replay["witness"] = json!(o.trace);
+                    sum.violation(Violation {
+                        property: "C09".into(),
+                        signature: f.sig,
+                        what: f.what,
+                        replay,
+                    });
+                }
+            }
+        }
+    }
+    sum.count("operations", total_ops);
+    if total_ops == 0 && p.only.is_none() {
+        sum.inconclusive.push("rtt: no operation was run".into());
+    }
+}
